@@ -263,15 +263,22 @@ class Walk:
             if v: s.F('C11', 'handle-reused|object', v)
             if s.m.can_read(se, private): s.read_model_attrs(se, r['h'], cls, a)
             o = Obj(uid, se.ti, on_token, private, a, se.h); o.handles[r['h']] = True; o.cls = cls; s.m.objs[uid] = o
-    def op_copy(s, se=None):
+    def op_copy(s, se=None, force=None):
         se = se or s.pick_sess();
         if not se: return
         o, h = s.pick_obj_handle(True, ti=se.ti)
+        if force is not None:      # directed: (predicate on the source object, new CKA_TOKEN or None, new CKA_PRIVATE or None)
+            c = [(oo, hh) for oo in s.m.objs.values() if oo.alive and oo.ti == se.ti and force[0](oo) for hh, al in oo.handles.items() if al]
+            o, h = c[s.rnd.randrange(len(c))] if c else (None, None)
         if not o: return
         s.m.uidc += 1; uid = b'U%05d' % s.m.uidc; ch = {'CKA_LABEL': uid}
         new_token = o.on_token; new_priv = o.private
-        if s.rnd.random() < 0.5: new_token = s.rnd.random() < 0.5; ch['CKA_TOKEN'] = new_token
-        if s.rnd.random() < 0.4: new_priv = s.rnd.random() < 0.6; ch['CKA_PRIVATE'] = new_priv
+        if force is not None:
+            if force[1] is not None: new_token = force[1]; ch['CKA_TOKEN'] = new_token
+            if force[2] is not None: new_priv = force[2]; ch['CKA_PRIVATE'] = new_priv
+        else:
+            if s.rnd.random() < 0.5: new_token = s.rnd.random() < 0.5; ch['CKA_TOKEN'] = new_token
+            if s.rnd.random() < 0.4: new_priv = s.rnd.random() < 0.6; ch['CKA_PRIVATE'] = new_priv
         st = STATE_NAMES[s.m.state(se)]; s.H('copy', se.h, o.uid, ch)
         r = s.c('C_CopyObject', s=se.h, o=h, tmpl=s.x.T(ch))
         src_ok = s.m.can_read(se, o.private); dst_ok = s.m.can_write(se, new_token, new_priv)
